@@ -222,12 +222,28 @@ def jobs_for(tier):
     return jobs
 
 
+def random_jobs(seed, n, tier):
+    """Seeded sample: option product x layout x schedule x stop step (every stop step 0..T is eligible)."""
+    import random
+
+    rng = random.Random(7919 * seed + 5)
+    out = []
+    for i, c in enumerate(c01.random_cfgs(seed + 1, n, precond=("shampoo", "shampoo", "soap_eigh", "soap_qr"), tier=tier)):
+        c = dict(c)
+        c["T"] = min(c["T"], 3)
+        c["stop"] = rng.randrange(0, c["T"] + 1)
+        c.pop("rebase", None)
+        out.append(dict(id=f"x{i}", module="checks.c09", factory="make", cfg=c))
+    return out
+
+
 def run(tier, seed, argv):
     from vlib import par
     from vlib.report import Report
 
     rep = Report("C09", tier, seed)
     jobs = jobs_for(tier)
+    jobs += random_jobs(seed, 6 if tier == "quick" else 40, tier)
     if argv:
         jobs = [j for j in jobs if j["id"] in argv]
     rep.bounds = dict(jobs=len(jobs), stop_steps="every k in 0..T, T<=3 (quick) / 4 (thorough)", configs="Shampoo/SOAP, Adam/RMSprop/SGD/no grafting, momentum, filtering, two groups, blocked parameters, a block without Kronecker factors",
